@@ -67,8 +67,9 @@ def monitor(ctx, cfg, ops, lines):
                 else:
                     ctx.count('pass-before-deadline')
         elif k == 'reap' and state == 'STOPPING':
-            if st2 != 'STOPPED' and err == '-':
-                ctx.violation('not-stopped-after-reap', 'child of a STOPPING process reaped with status %d, state %s' % (op['es'], st2), inp)
+            if st2 != 'STOPPED':
+                ctx.violation('not-stopped-after-reap', 'child of a STOPPING process reaped with status %d%s, state %s%s' % (
+                    op['es'], '' if op['es'] >= 0 else ' (killed by a signal)', st2, '' if err == '-' else ' (finish() raised %s)' % err), inp)
         elif k == 'rpcsignal' and not gated and state in ('STARTING', 'RUNNING', 'STOPPING') and pid != 0:
             if kills != [(pid, op['sig'])]:
                 ctx.violation('signal-wrong', 'signalProcess delivered %r, required %r' % (kills, [(pid, op['sig'])]), inp)
